@@ -3,6 +3,7 @@ import FontVerif.Model.PackedDeltas
 import FontVerif.Model.Iup
 import FontVerif.Model.GvarLayout
 import FontVerif.Drv.C10Data
+import FontVerif.Drv.C10Apply
 namespace FontVerif.Drv.C10
 open FontVerif FontVerif.PackedDeltas
 
@@ -162,6 +163,9 @@ def handle (cmd : String) (args : List String) : Option String :=
       | none =>
         match handleGvar cmd args with
         | some r => some r
-        | none => C10Data.handle cmd args
+        | none =>
+          match C10Data.handle cmd args with
+          | some r => some r
+          | none => C10Apply.handle cmd args
 
 end FontVerif.Drv.C10
